@@ -7,7 +7,7 @@
 (*   fault   a run of MC_C06's product (one fault or none)      (C06)      *)
 (*   steps   a run of MC_C10's product (configuration lattice)  (C10)      *)
 (***************************************************************************)
-EXTENDS TraceBase, FiniteSets, BVPipeline
+EXTENDS TraceBase, FiniteSets, BVPipeline, BVVcs
 VARIABLE l
 TraceInit == l = 1
 Good == <<OK, 0>>
@@ -46,7 +46,27 @@ StepsVerdict(e) ==
   ELSE IF \E q \in 1..Len(e.log) : e.log[q].kind = "hook" /\ (e.log[q].old # e.old \/ e.log[q].new # e.new) THEN <<"steps:hook-environment", <<e.old, e.new>> >>
   ELSE Good
 
-Verdict(e) == CASE e.ev = "fault" -> FaultVerdict(e) [] e.ev = "steps" -> StepsVerdict(e) [] OTHER -> <<"unknown-event", e.ev>>
+\* one VCS invocation of a run (C12):  e.tool, e.name : which command   e.argv : what the VCS received (texts)
+\*  e.values : the values that must arrive verbatim (tag, path, remote, logfile as applicable)
+\*  e.template, e.cli, e.kw : the message template in force, its source, the version texts (for commands that carry a message)
+\*  e.filemsg : for `hg commit --logfile` the content of the message file
+ArgvVerdict(e) ==
+  LET hasMsg == e.name \in {"commit", "tag"}
+      msg == IF hasMsg THEN Message(e.template, e.cli, e.kw) ELSE <<>> IN
+  IF hasMsg /\ msg = BadTemplate THEN <<"skip:template-outside-documented-placeholders", 0>>
+  ELSE LET vals == [message |-> msg] @@ e.values
+           want == Argv(e.tool, e.name, vals) IN
+  IF Len(e.argv) # Len(want) THEN <<"argv:argument-count", Len(want)>>
+  ELSE IF e.argv # want THEN <<"argv:value-altered", {q \in 1..Len(want) : e.argv[q] # want[q]}>>
+  ELSE IF e.tool = "hg" /\ e.name = "commit" /\ e.filemsg # msg THEN <<"argv:hg-message-file", msg>>
+  ELSE Good
+\* the message of a run:  e.template, e.cli : where it came from   e.kw : old / new / oldpep / newpep texts   e.message : what reached the VCS
+MsgVerdict(e) ==
+  LET m == Message(e.template, e.cli, e.kw) IN
+  IF m = BadTemplate THEN <<"skip:template-outside-documented-placeholders", 0>>
+  ELSE IF m # e.message THEN <<"msg:not-the-rendered-template", m>> ELSE Good
+
+Verdict(e) == CASE e.ev = "argv" -> ArgvVerdict(e) [] e.ev = "msg" -> MsgVerdict(e) [] e.ev = "fault" -> FaultVerdict(e) [] e.ev = "steps" -> StepsVerdict(e) [] OTHER -> <<"unknown-event", e.ev>>
 TraceNext == /\ l <= Len(Trace) /\ l' = l + 1
              /\ LET v == Verdict(Trace[l]) IN v[1] = OK \/ Report(Trace[l], v[1], v[2])
 TraceAccepted == TLCGet("stats").diameter - 1 = Len(Trace)
